@@ -1,0 +1,141 @@
+//go:build verif
+
+package codegen
+
+// Contracts for the deductive checker in /verif (comment-only file; adds no code).
+//
+// The first part specifies the *generated runtime* (the Go text inside
+// parserTemplate, lexerTemplate and baseTemplate). The checker renders the
+// templates with a freshly built lox on every run and verifies the rendered
+// functions against these contracts.
+//
+//@ package runtime
+//
+//@ func _Stack.Push
+//@   requires !isnil(s)
+//@   ensures len(*s) == old(len(*s)) + 1
+//@   ensures forall k int :: {(*s)[k]} {old((*s)[k])} 0 <= k && k < old(len(*s)) ==> (*s)[k] == old((*s)[k])
+//@   ensures (*s)[old(len(*s))] == x
+//@   ensures (base(*s) == old(base(*s)) && off(*s) == old(off(*s)) && cap(*s) == old(cap(*s))) || fresh(*s)
+//@   ensures old(len(*s)) == old(cap(*s)) ==> fresh(*s)
+//@   modifies *s, (*s)[len(*s)] if len(*s) < cap(*s)
+//
+//@ func _Stack.Pop
+//@   requires !isnil(s) && 0 <= n && n <= len(*s)
+//@   ensures *s == old((*s)[0:len(*s)-n])
+//@   modifies *s
+//
+//@ func _Stack.Peek
+//@   requires 0 <= n && n < len(s)
+//@   ensures result == s[len(s)-n-1]
+//
+//@ func _Stack.PeekSlice
+//@   requires 0 <= n && n <= len(s)
+//@   ensures result == s[len(s)-n:]
+//
+// Row format of the parser tables (_actions, _goto): table[y] is the offset of
+// row y; a row is its length followed by (key, value) pairs.
+//@ pure func wfRow(t []int32, y int32) bool = 0 <= y && y < len(t) && 0 <= t[y] && t[y] < len(t) && t[t[y]] >= 0 && t[t[y]] % 2 == 0 && t[y] + 1 + t[t[y]] <= len(t)
+//@ pure func rowKey(t []int32, y int32, k int) int32 = t[t[y] + 1 + 2*k]
+//@ pure func rowVal(t []int32, y int32, k int) int32 = t[t[y] + 2 + 2*k]
+//@ pure func rowLen(t []int32, y int32) int = t[t[y]] / 2
+//
+//@ func _Find
+//@   requires wfRow(table, y)
+//@   ensures result1 <==> exists k int :: 0 <= k && k < rowLen(table, y) && rowKey(table, y, k) == x
+//@   ensures result1 ==> exists k int :: 0 <= k && k < rowLen(table, y) && rowKey(table, y, k) == x && result0 == rowVal(table, y, k) && (forall k2 int :: 0 <= k2 && k2 < k ==> rowKey(table, y, k2) != x)
+//@   ensures !result1 ==> result0 == 0
+//@   let off = table[y]
+//@   return hint (i < end) ==> rowKey(table, y, (i - off - 1) / 2) == table[i] && rowVal(table, y, (i - off - 1) / 2) == table[i+1]
+//@   loop 0 invariant end == off + 1 + table[off] && off + 1 <= i && i <= end && (i - off - 1) % 2 == 0
+//@   loop 0 invariant forall k int :: {rowKey(table, y, k)} 0 <= k && off + 1 + 2*k < i ==> rowKey(table, y, k) != x
+//@   loop 0 decreases end - i
+//
+// ---- lexer state machine -------------------------------------------------------
+//
+// Row format of a mode table m with S states (see the comment in PushRune):
+//   m[s]            offset o of the row of state s
+//   m[o]            number of words that follow
+//   m[o+1]          flags (bit 0: non-greedy accepting)
+//   m[o+2]          n = number of transitions
+//   m[o+3+3k ..]    lo, hi, next   (k < n)
+//   then            (action, param) pairs
+//
+//@ ghost func nstates(m []uint32) int
+//@ opaque func rOff(m []uint32, s int) int = int(m[s])
+//@ opaque func rCnt(m []uint32, s int) int = int(m[rOff(m, s)])
+//@ opaque func rFlags(m []uint32, s int) int = int(m[rOff(m, s) + 1])
+//@ opaque func rN(m []uint32, s int) int = int(m[rOff(m, s) + 2])
+//@ opaque func rLo(m []uint32, s int, k int) int = int(m[rOff(m, s) + 3 + 3*k])
+//@ opaque func rHi(m []uint32, s int, k int) int = int(m[rOff(m, s) + 4 + 3*k])
+//@ opaque func rNxt(m []uint32, s int, k int) int = int(m[rOff(m, s) + 5 + 3*k])
+//@ opaque func rNAct(m []uint32, s int) int = (rCnt(m, s) - 2 - 3*rN(m, s)) / 2
+//@ opaque func rAct(m []uint32, s int, j int) int = int(m[rOff(m, s) + 3 + 3*rN(m, s) + 2*j])
+//@ opaque func rPar(m []uint32, s int, j int) int = int(m[rOff(m, s) + 4 + 3*rN(m, s) + 2*j])
+//
+//@ opaque func wfState(m []uint32, s int, S int, M int) bool = S <= rOff(m, s) && rOff(m, s) + 1 + rCnt(m, s) <= len(m) && 0 <= rN(m, s) && 2 + 3*rN(m, s) <= rCnt(m, s) && (rCnt(m, s) - 3*rN(m, s)) % 2 == 0 && (forall k int :: {rLo(m, s, k)} {rHi(m, s, k)} {rNxt(m, s, k)} 0 <= k && k < rN(m, s) ==> rLo(m, s, k) <= rHi(m, s, k) && rHi(m, s, k) <= 0x10FFFF && rNxt(m, s, k) < S) && (forall k1, k2 int :: {rHi(m, s, k1), rLo(m, s, k2)} 0 <= k1 && k1 < k2 && k2 < rN(m, s) ==> rHi(m, s, k1) < rLo(m, s, k2)) && (forall j int :: {rAct(m, s, j)} 0 <= j && j < rNAct(m, s) ==> 1 <= rAct(m, s, j) && rAct(m, s, j) <= 5 && (rAct(m, s, j) == 1 ==> rPar(m, s, j) < M) && (rAct(m, s, j) >= 3 ==> j == rNAct(m, s) - 1)) && (rNAct(m, s) > 0 ==> rAct(m, s, rNAct(m, s) - 1) >= 3)
+//@ opaque func wfMode(m []uint32) bool = 1 <= nstates(m) && nstates(m) <= len(m) && forall s int :: {rOff(m, s)} 0 <= s && s < nstates(m) ==> wfState(m, s, nstates(m), len(_lexerModes))
+//
+//@ func _LexerStateMachine.PushRune
+//@   requires !isnil(l)
+//@   requires -1 <= r && r <= 0x10FFFF
+//@   requires wfMode(_lexerMode0)
+//@   requires forall q int :: {_lexerModes[q]} 0 <= q && q < len(_lexerModes) ==> wfMode(_lexerModes[q])
+//@   requires isnil(l.mode) || wfMode(l.mode)
+//@   requires forall q int :: {l.modeStack[q]} 0 <= q && q < len(l.modeStack) ==> wfMode(l.modeStack[q])
+//@   let m0 = ite(isnil(old(l.mode)), _lexerMode0, old(l.mode))
+//@   let s0 = old(l.state)
+//@   requires 0 <= l.state && l.state < nstates(ite(isnil(l.mode), _lexerMode0, l.mode))
+//@   hint rOff(m0, s0) == int(m0[s0]) && rCnt(m0, s0) == int(m0[rOff(m0, s0)]) && rFlags(m0, s0) == int(m0[rOff(m0, s0) + 1]) && rN(m0, s0) == int(m0[rOff(m0, s0) + 2])
+//@   let greedyRow = rFlags(m0, s0) % 2 == 0
+//@   let hit = exists k int :: 0 <= k && k < rN(m0, s0) && rLo(m0, s0, k) <= r && r <= rHi(m0, s0, k)
+//@   let na = rNAct(m0, s0)
+//@   ensures result == 0 || result == 1 || result == 2 || result == 3 || result == 4 || result == -1
+//   a transition is taken exactly when the row is not a non-greedy accepting one and some range holds r
+//@   ensures result == 0 <==> (greedyRow && hit)
+//@   ensures result == 0 ==> exists k int :: 0 <= k && k < rN(m0, s0) && rLo(m0, s0, k) <= r && r <= rHi(m0, s0, k) && l.state == rNxt(m0, s0, k)
+//@   ensures result == 0 ==> l.mode == m0 && l.modeStack == old(l.modeStack) && l.token == old(l.token)
+//   otherwise the row's actions run; accept/discard/accumulate end the token and reset the state
+//@   ensures (result == 1 || result == 2 || result == 3) ==> l.state == 0 && na > 0 && rAct(m0, s0, na - 1) == result + 2
+//@   ensures result == 1 ==> l.token == rPar(m0, s0, na - 1)
+//@   ensures result == 4 ==> s0 == 0 && r == -1 && na == 0
+//@   ensures (result == 4 || result == -1) ==> l.state == s0
+//@   ensures (result != 0 && na == 0) ==> result == ite(s0 == 0 && r == -1, 4, -1) && l.mode == m0 && l.modeStack == old(l.modeStack)
+//@   ensures (result != 0 && na == 1) ==> l.mode == m0 && l.modeStack == old(l.modeStack) && result == rAct(m0, s0, 0) - 2
+//   push_mode / pop_mode followed by the terminating action
+//@   ensures (result != 0 && na == 2 && rAct(m0, s0, 0) == 1) ==> result == rAct(m0, s0, 1) - 2 && l.mode == _lexerModes[rPar(m0, s0, 0)] && len(l.modeStack) == old(len(l.modeStack)) + 1 && l.modeStack[old(len(l.modeStack))] == m0
+//@   ensures (result != 0 && na == 2 && rAct(m0, s0, 0) == 2 && old(len(l.modeStack)) == 0) ==> result == -1
+//@   ensures (result != 0 && na == 2 && rAct(m0, s0, 0) == 2 && old(len(l.modeStack)) > 0) ==> result == rAct(m0, s0, 1) - 2 && l.mode == old(l.modeStack[len(l.modeStack) - 1]) && len(l.modeStack) == old(len(l.modeStack)) - 1
+//   the machine stays well formed
+//@   ensures wfMode(l.mode) && (result != -1 ==> 0 <= l.state && l.state < nstates(l.mode))
+//@   modifies l.token, l.state, l.mode, l.modeStack, l.modeStack[*]
+//@   requires len(_lexerModes) >= 1 && (base(l.modeStack) != base(_lexerModes))
+//@   ensures base(l.modeStack) != base(_lexerModes)
+//@   ensures forall q int :: {l.modeStack[q]} 0 <= q && q < len(l.modeStack) ==> wfMode(l.modeStack[q])
+//@   let ab = rOff(m0, s0) + 3 + 3*rN(m0, s0)
+//@   let jj = (i - ab) / 2
+//@   let tableFacts = rAct(m0, s0, jj) == int(mode[i]) && rPar(m0, s0, jj) == int(mode[i+1])
+//@   return hint rLo(m0, s0, j) == int(mode[k]) && rHi(m0, s0, j) == int(mode[k+1]) && rNxt(m0, s0, j) == int(mode[k+2])
+//@   return hint (ab <= i && (i - ab) % 2 == 0) ==> tableFacts
+//@   call Push 0 hint tableFacts
+//@   loop 0 invariant 0 <= b && b <= e && e <= gotoN && mode == m0 && l == old(l) && i == rOff(m0, s0) + 3 && gotoN == rN(m0, s0) && end == rOff(m0, s0) + 1 + rCnt(m0, s0) && r == old(r)
+//@   loop 0 invariant l.state == s0 && l.mode == m0 && l.modeStack == old(l.modeStack) && l.token == old(l.token)
+//@   loop 0 invariant forall k int :: {rHi(m0, s0, k)} 0 <= k && k < b ==> rHi(m0, s0, k) < r
+//@   loop 0 invariant forall k int :: {rLo(m0, s0, k)} e <= k && k < rN(m0, s0) ==> r < rLo(m0, s0, k)
+//@   loop 0 invariant unchangedOld(fields(_LexerStateMachine), *l) && unchangedOld(elems([]uint32))
+//@   loop 0 hint rLo(m0, s0, j) == int(mode[k]) && rHi(m0, s0, j) == int(mode[k+1])
+//@   loop 0 decreases e - b
+//@   loop 1 hint rAct(m0, s0, jj - 1) == int(mode[i-2]) && rPar(m0, s0, jj - 1) == int(mode[i-1])
+//@   loop 1 invariant mode == m0 && l == old(l) && r == old(r) && end == ab + 2*na && ab <= i && i <= end && (i - ab) % 2 == 0
+//@   loop 1 invariant l.state == s0 && l.token == old(l.token)
+//@   loop 1 invariant wfMode(l.mode) && base(l.modeStack) != base(_lexerModes)
+//@   loop 1 invariant forall q int :: {l.modeStack[q]} 0 <= q && q < len(l.modeStack) ==> wfMode(l.modeStack[q])
+//@   loop 1 invariant forall q int :: {_lexerModes[q]} 0 <= q && q < len(_lexerModes) ==> wfMode(_lexerModes[q])
+//@   loop 1 invariant forall j2 int :: {rAct(m0, s0, j2)} 0 <= j2 && j2 < jj ==> rAct(m0, s0, j2) == 1 || rAct(m0, s0, j2) == 2
+//@   loop 1 invariant jj == 0 ==> l.mode == m0 && l.modeStack == old(l.modeStack) && (forall q int :: {l.modeStack[q]} 0 <= q && q < len(l.modeStack) ==> l.modeStack[q] == old(l.modeStack[q]))
+//@   loop 1 invariant (jj == 1 && rAct(m0, s0, 0) == 1) ==> l.mode == _lexerModes[rPar(m0, s0, 0)] && len(l.modeStack) == old(len(l.modeStack)) + 1 && l.modeStack[old(len(l.modeStack))] == m0
+//@   loop 1 invariant (jj == 1 && rAct(m0, s0, 0) == 2) ==> old(len(l.modeStack)) > 0 && l.mode == old(l.modeStack[len(l.modeStack) - 1]) && len(l.modeStack) == old(len(l.modeStack)) - 1
+//@   loop 1 invariant unchangedOld(fields(_LexerStateMachine), *l)
+//@   loop 1 invariant unchangedOld(elems([]uint32), l.modeStack[*])
+//@   loop 1 invariant base(l.modeStack) == old(base(l.modeStack)) || fresh(l.modeStack)
+//@   loop 1 decreases end - i
